@@ -8,7 +8,8 @@ in hex, `~` = absent / empty list)
 
 `pdshmodel wcoll model`:
    MODE STDIN ENV NARGS ARG... NFILES (PATH R CONTENT)...
-   MODE = F<size> (fgets with a buffer of <size> bytes) or W (whole lines); ARG = one -w optarg (HEX) or
+   MODE = F<size> (fgets with a buffer of <size> bytes, every piece parsed on its own), G<size> (the repaired
+   reader as written: fgets pieces of a <size>-byte buffer glued until a newline) or W (whole lines); ARG = one -w optarg (HEX) or
    one -x optarg (X followed by HEX)
    answer: STATUS NWARN CREATED EXPRS EXCL OPENED   (STATUS ok|fatal|starved; lists comma separated)
 `pdshmodel wcoll spec`:
@@ -45,7 +46,8 @@ def runModel (line : String) : String :=
     let r : Option String := do
       let mode : Wcoll.LineMode ←
         if mode = "W" then some .whole
-        else if mode.startsWith "F" then (mode.drop 1).toString.toNat?.map .fgets else none
+        else if mode.startsWith "F" then (mode.drop 1).toString.toNat?.map .fgets
+        else if mode.startsWith "G" then (mode.drop 1).toString.toNat?.map .glued else none
       let stdin ← optStr stdin
       let env ← optStr env
       let nargs ← nargs.toNat?
